@@ -159,7 +159,7 @@ theorem okd_mutual {cfg} : ∀ fuel,
       simp only [parseMembers]
       generalize (if ((cur s).1 == 0x22 || (cur s).1 == 0x27) = true then parseQuoted cfg (cur s).1 (f+1) [] 0 (mv (cur s).2)
             else if inUnquoted (cur s).1 = true then
-              (Code.ok, (parseUnquoted (f+1) [] (cur s).2).1, (parseUnquoted (f+1) [] (cur s).2).2)
+              ((if (parseUnquoted (f+1) [] (cur s).2).1.length > cfg.maxStrLen then Code.noMemory else Code.ok), (parseUnquoted (f+1) [] (cur s).2).1, (parseUnquoted (f+1) [] (cur s).2).2)
             else (Code.invalid, [], (cur s).2)) = kr
       obtain ⟨kc, key, s1⟩ := kr
       have hres : depth (.obj ms) ≤ limit + 1 := by rw [depth_obj]; exact Nat.succ_le_succ hms
@@ -321,7 +321,7 @@ theorem fokd_mutual {cfg} : ∀ fuel,
       simp only [fparseMembers]
       generalize (if ((cur s).1 == 0x22 || (cur s).1 == 0x27) = true then parseQuoted cfg (cur s).1 (f+1) [] 0 (mv (cur s).2)
             else if inUnquoted (cur s).1 = true then
-              (Code.ok, (parseUnquoted (f+1) [] (cur s).2).1, (parseUnquoted (f+1) [] (cur s).2).2)
+              ((if (parseUnquoted (f+1) [] (cur s).2).1.length > cfg.maxStrLen then Code.noMemory else Code.ok), (parseUnquoted (f+1) [] (cur s).2).1, (parseUnquoted (f+1) [] (cur s).2).2)
             else (Code.invalid, [], (cur s).2)) = kr
       obtain ⟨kc, key, s1⟩ := kr
       have hres : depth (.obj ms) ≤ limit + 1 := by rw [depth_obj]; exact Nat.succ_le_succ hms
